@@ -59,7 +59,7 @@ BYTE_OPS = ["bitflip", "overwrite", "truncate", "dup_span", "del_span", "splice"
 FIELD_OPS = [
     "dangling_input", "dup_output", "empty_name", "drop_type", "shuffle_nodes", "self_cycle", "bad_dtype", "bad_attr_type", "bad_dims", "ext_location",
     "ext_numbers", "dup_initializer", "dup_function", "dangling_output", "dup_graph_input", "dangling_device", "deep_nesting", "dup_value_info",
-    "tensor_metadata", "missing_opset", "ref_attr", "sparse", "quant", "negative_dims", "string_tensor", "input_is_output",
+    "tensor_metadata", "missing_opset", "ref_attr", "sparse", "quant", "negative_dims", "string_tensor", "input_is_output", "sub_output_outer", "sub_output_outer", "sub_input_outer", "sub_init_outer",
 ]  # fmt: skip
 _IGNORED_PREFIXES = tuple(p for p in {sys.prefix, sys.base_prefix, "/repo", "/verif", "/venv", "/root/.pyenv", "/usr/lib/python3", "/usr/lib/python3.12", "/proc/self"} if p)
 
@@ -339,6 +339,32 @@ def damage_fields(p: onnx.ModelProto, opsl: list) -> None:
             q.tensor_name = "no_such"
             kv = q.quant_parameter_tensor_names.add()
             kv.key, kv.value = "SCALE_TENSOR", "missing"
+        elif kind in ("sub_output_outer", "sub_input_outer", "sub_init_outer"):
+            # a nested graph declares an output / input / initializer under the name of a value of an enclosing graph
+            subs = [x for x in graphs if x is not p.graph]
+            if not subs:
+                continue
+            sg = subs[a % len(subs)]
+            outer_names = [o for n2 in p.graph.node for o in n2.output if o] + [i.name for i in p.graph.input if i.name]
+            if not outer_names:
+                continue
+            nm = outer_names[c % len(outer_names)]
+            if kind == "sub_output_outer":
+                if sg.output and c % 2:
+                    sg.output[0].name = nm
+                else:
+                    vi = sg.output.add()
+                    vi.name = nm
+                    vi.type.tensor_type.elem_type = 7
+            elif kind == "sub_input_outer":
+                vi = sg.input.add()
+                vi.name = nm
+            else:
+                t = sg.initializer.add()
+                t.name = nm
+                t.data_type = 1
+                t.dims.append(1)
+                t.raw_data = b"\x00\x00\x80?"
         elif kind == "string_tensor" and g.initializer:
             t = g.initializer.add()
             t.name = "strs"
@@ -450,6 +476,14 @@ def check_one(proto_bytes: bytes, scratch: str, seam: fsseam.FsSeam, use_load: b
             inc("ir_walk_recursion_error")
         except Exception as e:  # noqa: BLE001
             inv = {"clause": "accessor-raised", "detail": f"{type(e).__name__}: {e}"}
+        if inv is None:
+            # ownership as documented for Value.graph: a value that is an input/output/initializer of graph G is owned by G,
+            # a node output is owned by its node's graph - an IR built from a proto must not make these two disagree
+            for v in w.values:
+                p_ = v.producer()
+                if p_ is not None and p_.graph is not None and (v.is_graph_input() or v.is_graph_output() or v.is_initializer()) and v.graph is not p_.graph:
+                    inv = {"clause": "owner-conflict", "detail": f"value {v.name!r} is an input/output/initializer of graph {getattr(v.graph, 'name', None)!r} but is produced by node {p_.name!r} of graph {getattr(p_.graph, 'name', None)!r}"}
+                    break
         if inv is not None:
             return {"clause": "inconsistent-ir-returned", "detail": f"from_proto returned an IR that violates {inv['clause']}: {inv['detail']}", "key": f"inconsistent-ir-returned|{inv['clause']}"}
         # ---- (c) serialization raises or reaches a fix point
